@@ -68,7 +68,9 @@ def build_case(u):
         elif k == 6:
             parts[i] = u.choice(["a", "x1", "1x", "0x10", "one", "1e3", "١"[:0] + "z"])
         elif k == 7:
-            parts[i] = str(2 ** 32 + u.below(1000) if u.bool() else 10 ** (10 + u.below(25)))
+            # just beyond the 32-bit range (where a hand-written digit loop would wrap), powers of two, very long
+            parts[i] = str(u.choice([2 ** 32 + d for d in range(12)] + [2 ** 32 + 1000, 2 ** 33, 2 ** 40, 2 ** 63, 2 ** 64, 2 ** 64 + 1,
+                                    4294967295 * 10, 42949672960, 10 ** 19]) if u.bool() else 10 ** (10 + u.below(25)))
         elif k == 8:
             parts[0] = str(u.choice([3, 4, 6, 7, 9, 10, 39, 40, 255, 256, 2 ** 32 - 1]))
         elif k == 9:
